@@ -1378,6 +1378,8 @@ def inline_new_helpers(tree: ast.Module, modname: str, inventory: Optional[Set[s
         normalize_unbound_tensor_calls(tree)
         ast.fix_missing_locations(tree)
     log += scalarize_state_objects(tree, modname, inventory)
+    if mi.rewritten:
+        expand_starred_tuples(tree)
     return set(mi.new), log
 
 
@@ -1761,3 +1763,34 @@ def adopt_foreign_helpers(trees: Dict[str, ast.Module], relpaths: Dict[str, str]
             if local and isinstance(c.func, ast.Attribute):
                 c.func = ast.copy_location(ast.Name(id=local, ctx=ast.Load()), c.func)
     return log
+
+
+def expand_starred_tuples(tree: ast.Module) -> int:
+    """`f(a, *t, b)` where `t` is a local bound exactly once to a tuple display (what a pasted-back helper that returned two values
+    leaves behind: `t = (paxes, vaxes)`) is read as `f(a, paxes, vaxes, b)` when the elements are plain names that are not rebound
+    between the binding and the call (bound once themselves)."""
+    n_rw = 0
+    for fn in [x for x in ast.walk(tree) if isinstance(x, FUNC)]:
+        stores: Dict[str, int] = {}
+        binds: Dict[str, ast.AST] = {}
+        for n in ast.walk(fn):
+            if isinstance(n, ast.Name) and isinstance(n.ctx, (ast.Store, ast.Del)):
+                stores[n.id] = stores.get(n.id, 0) + 1
+            if isinstance(n, ast.Assign) and len(n.targets) == 1 and isinstance(n.targets[0], ast.Name) and isinstance(n.value, ast.Tuple):
+                binds[n.targets[0].id] = n.value
+        for c in [x for x in ast.walk(fn) if isinstance(x, ast.Call)]:
+            new_args = []
+            changed = False
+            for a in c.args:
+                if isinstance(a, ast.Starred) and isinstance(a.value, ast.Name) and a.value.id in binds and stores.get(a.value.id) == 1 \
+                        and all(isinstance(e, ast.Name) and stores.get(e.id, 0) <= 1 for e in binds[a.value.id].elts):
+                    new_args += [ast.copy_location(ast.Name(id=e.id, ctx=ast.Load()), a) for e in binds[a.value.id].elts]
+                    changed = True
+                else:
+                    new_args.append(a)
+            if changed:
+                c.args = new_args
+                n_rw += 1
+    if n_rw:
+        ast.fix_missing_locations(tree)
+    return n_rw
